@@ -293,3 +293,67 @@ func TestZFirstAgain(t *testing.T) {
 		}
 	}
 }
+
+// TestCollidingStrings: pairs of different, valid 22-digit id strings that collide under a common 32-bit
+// hash (found by birthday search over generated ids, vk.CollidingPairs), parsed one right after the other,
+// both orders: a memo of recent parses keyed by a checksum of the text returns the other string's id.
+func TestCollidingStrings(t *testing.T) {
+	if rec.Env().Shard != 0 {
+		return
+	}
+	sm := vk.SplitMix(uint64(rec.Env().Seed)*31 + 5)
+	pairs := vk.CollidingPairs(func(i uint64) string {
+		// realistic ids: calendar time stamps, a gateway code of up to 6 digits, any sequence number
+		tu := Tuple{uint64(1 + sm.Intn(12)), uint64(1 + sm.Intn(28)), uint64(sm.Intn(24)), uint64(sm.Intn(60)), uint64(sm.Intn(60)), uint64(sm.Intn(1000000)), uint64(sm.Intn(65536))}
+		return refString(refCompose(tu))
+	}, 500000)
+	for _, p := range pairs {
+		for _, ord := range [][2]string{{p[0], p[1]}, {p[1], p[0]}} {
+			rec.Eval()
+			rec.NonTrivialConstructed(1)
+			rec.Class("id_strings_colliding_under_a_32_bit_hash")
+			c := CollideCase{First: ord[0], Then: ord[1]}
+			rec.Report(t, "collide", checkCollide(c))
+		}
+	}
+	if len(pairs) == 0 {
+		t.Log("no colliding pair found in this sample")
+	}
+}
+
+type CollideCase struct {
+	First string `json:"first"`
+	Then  string `json:"then"`
+}
+
+func parseRef(s string) uint64 {
+	var f [7]uint64
+	w := []int{2, 2, 2, 2, 2, 7, 5}
+	pos := 0
+	for i, n := range w {
+		for _, ch := range s[pos : pos+n] {
+			f[i] = f[i]*10 + uint64(ch-'0')
+		}
+		pos += n
+	}
+	return refCompose(Tuple{f[0], f[1], f[2], f[3], f[4], f[5], f[6]})
+}
+
+func checkCollide(c CollideCase) *vk.Violation {
+	a, b := cmpp.MsgIDString2Uint64(c.First), cmpp.MsgIDString2Uint64(c.Then)
+	if a != parseRef(c.First) {
+		return vk.Violf("String2Uint64/colliding-strings", c, "MsgIDString2Uint64(%q) = %#016x, want %#016x", c.First, a, parseRef(c.First))
+	}
+	if b != parseRef(c.Then) {
+		return vk.Violf("String2Uint64/colliding-strings", c, "MsgIDString2Uint64(%q) right after parsing %q (same length, same 32-bit checksum) = %#016x, want %#016x", c.Then, c.First, b, parseRef(c.Then))
+	}
+	return nil
+}
+
+func init() {
+	reg["collide"] = func(raw json.RawMessage) *vk.Violation {
+		var c CollideCase
+		_ = json.Unmarshal(raw, &c)
+		return checkCollide(c)
+	}
+}
